@@ -30,6 +30,10 @@ type GenCfg struct {
 	BinaryPtr    bool  // optional binary fields may be held as *[]byte
 	Twins        bool  // add "twin" fields: same Go type, schema differing in one list<->set or enum<->i64 node at any depth
 	NoNil        bool  // never generate nil containers / binaries / struct pointers
+	// Huge: one value in ~120 carries one large leaf: a string/binary of 64 KiB..1 MiB or a container
+	// of 1000..70000 scalar/short-string elements (elements derived from one drawn seed, not drawn
+	// one by one)
+	Huge bool
 	// Exclusions for open known findings (counted by the caller).
 	NoID65535        bool
 	NoBinaryMapVal   bool
@@ -377,6 +381,59 @@ type valGen struct {
 	t      *rapid.T
 	c      GenCfg
 	budget int
+	huge   int // large leaves still allowed in this value
+}
+
+// HugeDrawn counts the large leaves generated in this process (evidence).
+var HugeDrawn = map[string]int{}
+
+var (
+	hugeStrLens = []int{65535, 65536, 65537, 100000, 262144, 1 << 20}
+	hugeCounts  = []int{1000, 4095, 4096, 4097, 32768, 65535, 65536, 70000}
+)
+
+// hugeElemOK: element kinds a huge container may hold (derivable from an index).
+func hugeElemOK(t *TypeSpec) bool {
+	switch t.Kind {
+	case KBool, KI8, KI16, KI32, KI64, KEnum, KDouble, KString, KBinary:
+		return true
+	}
+	return false
+}
+
+// derived returns the i-th element of a huge container; distinct i give distinct values for
+// every kind wide enough (callers cap the count for bool/i8/i16 keys).
+func derived(t *TypeSpec, seed uint64, i int) Val {
+	x := (uint64(i) + seed) * 0x9E3779B97F4A7C15
+	switch t.Kind {
+	case KBool:
+		return Val{B: (uint64(i)+seed)%2 == 1}
+	case KI8:
+		return Val{I: int64(int8(uint64(i) + seed))}
+	case KI16:
+		return Val{I: int64(int16(uint64(i) + seed))}
+	case KI32, KEnum:
+		return Val{I: int64(int32(uint32(uint64(i)+seed) * 2654435761))}
+	case KI64:
+		return Val{I: int64(x)}
+	case KDouble:
+		return Val{F: math.Float64bits(float64(int64(uint64(i)+seed%1000)) * 0.5)}
+	case KString, KBinary:
+		return Val{S: []byte(fmt.Sprintf("%x", x)[:1+int((uint64(i)+seed)%9)] + "_" + fmt.Sprint(i))}
+	}
+	panic("derived: bad kind")
+}
+
+func hugeKeyCap(t *TypeSpec) int {
+	switch t.Kind {
+	case KBool:
+		return 2
+	case KI8:
+		return 256
+	case KI16:
+		return 65536
+	}
+	return 1 << 30
 }
 
 // GenStructVal draws a value of spec s.
@@ -384,6 +441,9 @@ func GenStructVal(t *rapid.T, c GenCfg, s *StructSpec) *SVal {
 	g := &valGen{t: t, c: c, budget: c.MaxBytes}
 	if g.budget == 0 {
 		g.budget = 16 << 10
+	}
+	if c.Huge && rapid.IntRange(0, 1<<20).Draw(t, "hugevalue")%29 == 28 {
+		g.huge = 1
 	}
 	return g.structVal(s, 0)
 }
@@ -478,6 +538,17 @@ func (g *valGen) intIn(bits uint) int64 {
 func (g *valGen) bytes() []byte {
 	t := g.t
 	var n int
+	if g.huge > 0 && rapid.IntRange(0, 2).Draw(t, "hugestr") == 0 {
+		g.huge--
+		n = rapid.SampledFrom(hugeStrLens).Draw(t, "hugelen")
+		HugeDrawn["huge-string"]++
+		seed := rapid.Byte().Draw(t, "sfill")
+		b := make([]byte, n)
+		for i := range b {
+			b[i] = seed + byte(i*7) + byte(i>>8)
+		}
+		return b
+	}
 	switch m := rapid.IntRange(0, 9).Draw(t, "slenmode"); {
 	case m < 3:
 		n = rapid.SampledFrom(strLens).Draw(t, "slenb")
@@ -572,6 +643,17 @@ func (g *valGen) val(ts *TypeSpec, depth int) Val {
 		if !g.c.NoNil && rapid.IntRange(0, 7).Draw(t, "nillist") == 0 {
 			return Val{Nil: true}
 		}
+		if g.huge > 0 && hugeElemOK(ts.Elem) && rapid.IntRange(0, 2).Draw(t, "hugelist") == 0 {
+			g.huge--
+			n := rapid.SampledFrom(hugeCounts).Draw(t, "hugecount")
+			HugeDrawn["huge-list"]++
+			seed := rapid.Uint64().Draw(t, "hugeseed")
+			out := Val{L: make([]Val, n)}
+			for i := range out.L {
+				out.L[i] = derived(ts.Elem, seed, i)
+			}
+			return out
+		}
 		n := g.count()
 		out := Val{L: make([]Val, 0, n)}
 		for i := 0; i < n && g.budget > 0; i++ {
@@ -582,6 +664,20 @@ func (g *valGen) val(ts *TypeSpec, depth int) Val {
 	case KMap:
 		if !g.c.NoNil && rapid.IntRange(0, 7).Draw(t, "nilmap") == 0 {
 			return Val{Nil: true}
+		}
+		if g.huge > 0 && hugeElemOK(ts.Key) && hugeElemOK(ts.Elem) && rapid.IntRange(0, 2).Draw(t, "hugemap") == 0 {
+			g.huge--
+			n := rapid.SampledFrom(hugeCounts).Draw(t, "hugecount")
+			if c := hugeKeyCap(ts.Key); n > c {
+				n = c
+			}
+			HugeDrawn["huge-map"]++
+			seed := rapid.Uint64().Draw(t, "hugeseed")
+			out := Val{M: make([]KV, n)}
+			for i := range out.M {
+				out.M[i] = KV{derived(ts.Key, seed, i), derived(ts.Elem, seed+1, i)}
+			}
+			return out
 		}
 		n := g.count()
 		out := Val{M: make([]KV, 0, n)}
